@@ -21,8 +21,23 @@ def literals(test, polarity=True):
             for v in test.values:
                 out.extend(literals(v, False))
             return out
-        return [(src(test), polarity, test)]
-    return [(src(test), polarity, test)]
+        return _with_expansion(test, polarity)
+    return _with_expansion(test, polarity)
+
+
+def _with_expansion(test, polarity):
+    """the literal as written, and -- when it reads local temporaries with a decidable straight-line definition
+    (sa/resolve.py) -- the same literal with those temporaries replaced by their definitions"""
+    out = [(src(test), polarity, test)]
+    try:
+        from . import resolve
+        if getattr(test, '_parent', None) is not None:
+            t2 = src(resolve.expand(test, test))
+            if t2 != out[0][0]:
+                out.append((t2, polarity, test))
+    except Exception:
+        pass
+    return out
 
 
 def path_conditions(node, stop=None):
@@ -257,3 +272,68 @@ def in_loop(node, fn=None):
             return p
         p = parent(p)
     return None
+
+
+# ------------------------------------------------------------------ evaluating dispatch chains
+_EVAL_NODES = (ast.Name, ast.Attribute, ast.Constant, ast.Compare, ast.BoolOp, ast.UnaryOp, ast.Tuple, ast.List, ast.Set, ast.Load, ast.And,
+               ast.Or, ast.Not, ast.Eq, ast.NotEq, ast.Lt, ast.LtE, ast.Gt, ast.GtE, ast.In, ast.NotIn, ast.USub, ast.Is, ast.IsNot)
+
+
+def eval_test(test, env):
+    """Truth value of a test built from the atoms in `env` (source text -> value: 'dim', 'self.L', ...), literals,
+    comparisons, in / not in, and / or / not; None if it involves anything else."""
+    def ev(e):
+        t = src(e)
+        if t in env:
+            return env[t]
+        if isinstance(e, ast.Constant):
+            return e.value
+        if isinstance(e, (ast.Tuple, ast.List, ast.Set)):
+            return tuple(ev(x) for x in e.elts)
+        if isinstance(e, ast.UnaryOp) and isinstance(e.op, ast.Not):
+            return not ev(e.operand)
+        if isinstance(e, ast.UnaryOp) and isinstance(e.op, ast.USub):
+            return -ev(e.operand)
+        if isinstance(e, ast.BoolOp):
+            vals = [ev(v) for v in e.values]
+            return all(vals) if isinstance(e.op, ast.And) else any(vals)
+        if isinstance(e, ast.Compare):
+            left = ev(e.left)
+            for op, c in zip(e.ops, e.comparators):
+                right = ev(c)
+                r = {ast.Eq: lambda a, b: a == b, ast.NotEq: lambda a, b: a != b, ast.Lt: lambda a, b: a < b, ast.LtE: lambda a, b: a <= b,
+                     ast.Gt: lambda a, b: a > b, ast.GtE: lambda a, b: a >= b, ast.In: lambda a, b: a in b, ast.NotIn: lambda a, b: a not in b,
+                     ast.Is: lambda a, b: a is b, ast.IsNot: lambda a, b: a is not b}[type(op)](left, right)
+                if not r:
+                    return False
+                left = right
+            return True
+        raise ValueError(t)
+    try:
+        return bool(ev(test))
+    except Exception:
+        return None
+
+
+def specialise(stmts, env):
+    """The statements of `stmts` that can execute when the atoms of `env` have the given values: an `if` whose test is
+    decided by env is replaced by its taken branch (recursively), anything else is kept whole.  Statements after an
+    unconditional return/raise of the specialised list are dropped."""
+    out = []
+    for s in stmts:
+        if isinstance(s, ast.If):
+            v = eval_test(s.test, env)
+            if v is True:
+                out.extend(specialise(s.body, env))
+            elif v is False:
+                out.extend(specialise(s.orelse, env))
+            else:
+                out.append(s)
+                continue
+            if out and isinstance(out[-1], (ast.Return, ast.Raise)):
+                break
+            continue
+        out.append(s)
+        if isinstance(s, (ast.Return, ast.Raise)):
+            break
+    return out
